@@ -1,6 +1,7 @@
 import Driver.Proto
 import Driver.SorterCmd
 import Driver.EngineCmd
+import Driver.DryCmd
 /-! `driver`: one request per line on stdin, one answer per line on stdout. -/
 namespace Driver
 
@@ -15,6 +16,9 @@ def step (st : St) (line : String) : St × String :=
     ({ st with sorter := s }, out)
   else if cmd.startsWith "engine." then
     let (s, out) := engineHandle st.engine cmd args
+    ({ st with engine := s }, out)
+  else if cmd.startsWith "c10." then
+    let (s, out) := dryHandle st.engine cmd args
     ({ st with engine := s }, out)
   else if cmd == "ping" then (st, "pong")
   else (st, "bad-op")
